@@ -281,7 +281,7 @@ def run_unit(ctx, proofs_ok):
     ]
     with C.Threads():
         coll = C.Collector(ctx, "C05", "graph")
-        scale = C.budget(ctx, 9, 40)
+        scale = C.budget(ctx, 9, 100)
         unit = campaign(ctx, torch, rng, scale, big, coll, "")
         if (unit["disagreements"] or not proofs_ok or any("C05_graph" in b for b in ctx.broken)) and not coll.best:
             unit["search"] = campaign(ctx, torch, rng, 3 * scale, True, coll, "_search", count=False)
